@@ -226,6 +226,13 @@ def _v_path_not_recorded(tree):
     M.replace_stmt(g, lambda s: M.src_is(s, "augment_path[j] = current_col"), [])
 
 
+def _v_flip_helper_swapped_dims(tree):
+    g = M.find_func(tree, "solve_hungarian")
+    idx = tree.body.index(g)
+    tree.body[idx:idx] = M.stmts("def _real_cell(i, j, height, width):\n    return i < height and j < width")
+    M.replace_expr(g, lambda e: M.src_is(e, "i < n_rows and j < n_cols"), M.expr("_real_cell(i, j, n_cols, n_rows)"))
+
+
 def _v_slack_tolerance(tree):
     g = M.find_func(tree, "solve_hungarian")
     M.replace_expr(g, lambda e: M.src_is(e, "reduced_cost < min_slack[j]"), M.expr("reduced_cost < min_slack[j] - 1e-09"))
@@ -254,6 +261,7 @@ VARIANTS = [
     M.Variant("padded work matrix comes from an lru_cache and keeps the padding of the previous call (seed C10-D)", HU, _v_cached_work_matrix, "C10-G3"),
     M.Variant("slack scan ignores improvements below an absolute tolerance (seed C10-F)", HU, _v_slack_tolerance, "C10-O5"),
     M.Variant("the alternating path is not recorded when a slack improves", HU, _v_path_not_recorded, "C10-O6"),
+    M.Variant("helper receives (n_cols, n_rows) where it expects (height, width)", HU, _v_flip_helper_swapped_dims, "C10-G8"),
     M.Variant("twin: reformat", HU, _t_reformat, None),
     M.Variant("twin: rename assignment / objective / working matrix", HU, _t_rename, None),
 ]
